@@ -230,7 +230,7 @@ PROPS = {
         "technique": "bounded-exhaustive enumeration of request-response histories (all sequences up to a depth, then breadth-first over distinct reference-model states) over an orthogonal array of configurations against a per-request stream model",
         "legs": [{"ws": "seq", "bin": "h_reqres", "args": ["--prop", "C11"]}],
         "rule": "see coverage.legs[0].rule",
-        "assumptions": ["single-threaded histories; 1-2 clients x 1-2 servers, max_active_requests 1..3, response buffer 1..2, overflow on/off for requests and responses, fire-and-forget on/off; local service quick, ipc added in thorough", "tree depth 5-7 quick / up to 9 thorough, frontier to depth 10 / 12", "ports use BackpressureStrategy::DiscardData (the default RetryUntilDelivered would spin in a single thread)"],
+        "assumptions": ["request and response payloads are the fixed-size type [u64; 4]: the separate slice-payload impl blocks of the request-response ports ([T] payloads) are NOT driven by this check (open gap, seed C11d, DESIGN 9.7)", "single-threaded histories; 1-2 clients x 1-2 servers, max_active_requests 1..3, response buffer 1..2, overflow on/off for requests and responses, fire-and-forget on/off; local service quick, ipc added in thorough", "tree depth 5-7 quick / up to 9 thorough, frontier to depth 10 / 12", "ports use BackpressureStrategy::DiscardData (the default RetryUntilDelivered would spin in a single thread)"],
         "design_ref": "DESIGN.md §3.3, §4 C11",
         "level_text": "Every history of send/loan request, receive request, send/loan response, receive/release response, drop of pending response or active request, creation and drop of clients and servers up to the depth is executed on the real ports and compared after every call with a model of one response stream per (request, server): requests reach each connected server once and in order, responses arrive only through the pending response of their own request, in order, at most once; closing either end is observed by the other; nothing is delivered into a reused slot; limits hold.",
         "level_note": "trusted: seqx engine, the stream model (written from the documentation); bounded as stated",
